@@ -707,4 +707,3 @@ func TestReplayJournal(t *testing.T) {
 	out := check(t, c)
 	record(c, out)
 }
-
